@@ -245,7 +245,8 @@ def symbolic_goals(cases, tier):
         goals.sort()
         per, out = {}, []
         for g in goals:
-            if per.get(g[1], 0) < 5:
+            # DotProduct / MatrixVectorProduct / Mux are proved for all sizes (C26_*_all_sizes): one sanity goal each
+            if per.get(g[1], 0) < (1 if g[1] in ('dotp', 'matvec', 'mux') else 5):
                 per[g[1]] = per.get(g[1], 0) + 1
                 out.append(g)
         goals = out
